@@ -15,7 +15,7 @@ ids=[r['check'] for r in m.get('check_runs',[]) if r.get('exit')==1]
 print(' '.join(dict.fromkeys(ids)))")
   [ -z "$ids" ] && { echo "$name: NEVER-CAUGHT (no recorded catching check)"; continue; }
   git -C "$R" checkout -q -- . ; git -C "$R" clean -fdq
-  if ! git -C "$R" apply $d/patch.diff 2>/dev/null; then echo "$name: patch does not apply to the current tree"; continue; fi
+  if ! git -C "$R" apply "$V/$d/patch.diff" 2>/dev/null; then echo "$name: patch does not apply to the current tree"; continue; fi
   caught=""
   for id in $ids; do
     VERIF_REPO="$R" ./check $id quick > /tmp/rg-$$.log 2>&1; rc=$?
